@@ -760,3 +760,47 @@ R.mutant("loaded-version-from-current-state", PERS,
 # benign
 R.mutant("benign-rename-flag", PERS, sub("need_version_id", "versioned", count=4), None)
 R.mutant("benign-log", PERS, sub("        allow_executemany = not needs_version_id or assert_multirow\n", "        allow_executemany = not needs_version_id or assert_multirow\n        _n = len(records)\n"), None)
+# --- C44-R2 (per-condition vocabulary keys, generalised warn-only)
+R.mutant("delete-second-foreign-condition", PERS,
+         sub("            base_mapper.confirm_deleted_rows\n            and rows_matched > -1\n", "            base_mapper.confirm_deleted_rows\n            and not uowtransaction.session.info\n            and rows_matched > -1\n"), "C44-R2")
+R.mutant("seed2-warn-only-when-nothing-matched", PERS,
+         sub("            if not need_version_id:\n                only_warn = True\n\n            rows_matched = c.rowcount\n",
+             "            rows_matched = c.rowcount\n\n            if not need_version_id or not rows_matched:\n                only_warn = True\n"), "C44-R2")
+R.mutant("warn-only-computed-not-constant", PERS,
+         sub("            if not need_version_id:\n                only_warn = True\n\n            rows_matched = c.rowcount\n",
+             "            rows_matched = c.rowcount\n            only_warn = not need_version_id or not rows_matched\n"), "C44-R2")
+R.mutant("benign-warn-only-computed", PERS,
+         sub("            if not need_version_id:\n                only_warn = True\n\n            rows_matched = c.rowcount\n",
+             "            rows_matched = c.rowcount\n            only_warn = not need_version_id\n"), None)
+# --- C44-R5
+_SCAN = "                for prop in mapper._columntoproperty.values():\n                    history = state.manager[prop.key].impl.get_history(\n"
+R.mutant("seed1-scan-own-table-only", PERS,
+         sub(_SCAN, "                for col in mapper.local_table.c:\n                    prop = mapper._columntoproperty.get(col)\n                    if prop is None:\n                        continue\n                    history = state.manager[prop.key].impl.get_history(\n"), "C44-R5")
+R.mutant("scan-version-table-columns-only", PERS,
+         sub(_SCAN, "                for prop in [mapper._columntoproperty[c] for c in mapper._cols_by_table[table]]:\n                    history = state.manager[prop.key].impl.get_history(\n"), "C44-R5")
+R.mutant("scan-base-mapper-properties", PERS,
+         sub(_SCAN, "                for prop in mapper.base_mapper._columntoproperty.values():\n                    history = state.manager[prop.key].impl.get_history(\n"), "C44-R5")
+R.mutant("skip-without-scan", PERS,
+         sub("                    if history.added:\n                        break\n                else:\n                    # no net change, break\n                    continue\n",
+             "                    if history.added:\n                        break\n                continue\n"), "C44-R5")
+R.mutant("scan-leaves-on-deleted", PERS,
+         sub("                    if history.added:\n                        break\n                else:\n                    # no net change, break\n",
+             "                    if history.deleted:\n                        break\n                else:\n                    # no net change, break\n"), "C44-R5")
+R.mutant("benign-scan-items-and-local", PERS,
+         sub(_SCAN, "                colprops = list(mapper._columntoproperty.items())\n                for _c, prop in colprops:\n                    history = state.manager[prop.key].impl.get_history(\n"), None)
+R.mutant("benign-scan-column-attrs", PERS,
+         sub(_SCAN, "                for prop in mapper.column_attrs:\n                    history = state.manager[prop.key].impl.get_history(\n"), None)
+# --- C44-R6
+R.mutant("post-update-executemany-checks-single-record-only", PERS,
+         sub("            check_rowcount = assert_multirow or (\n                assert_singlerow and len(multiparams) == 1\n            )\n",
+             "            check_rowcount = assert_singlerow and len(multiparams) == 1\n"), "C44-R6")
+R.mutant("update-row-by-row-needs-multirow", PERS,
+         sub("            if not allow_executemany:\n                check_rowcount = enable_check_rowcount and assert_singlerow\n",
+             "            if not allow_executemany:\n                check_rowcount = enable_check_rowcount and assert_multirow\n"), "C44-R6")
+R.mutant("delete-check-single-record-only", PERS,
+         sub("                connection.dialect.supports_sane_multi_rowcount\n                or len(del_objects) == 1\n            )\n        ):",
+             "                len(del_objects) == 1\n            )\n        ):"), "C44-R6")
+R.mutant("delete-only-warn-default-true", PERS, sub("        only_warn = False\n", "        only_warn = True\n"), "C44-R6")
+R.mutant("benign-delete-row-by-row-verified", PERS,
+         sub("                connection.dialect.supports_sane_multi_rowcount\n                or len(del_objects) == 1\n            )\n        ):",
+             "                connection.dialect.supports_sane_multi_rowcount\n                or len(del_objects) == 1\n                or need_version_id\n            )\n        ):"), None)
